@@ -153,6 +153,9 @@ def projects(draw, max_steps=9, allow_always=True, allow_clash=False):
                     for j, o in enumerate(step['outs'][1:])]
             step['files'] = pick(file_refs('cdhb'), 0, 3)
             step['two_lines'] = draw(st.integers(0, 2)) == 0
+            # command lines that rely on the shell state the previous line
+            # left behind (the working directory)
+            step['state_lines'] = draw(st.integers(0, 3)) == 0
             step['cmd_refs'] = draw(st.booleans())
             if step['cmd_refs'] and not step['files']:
                 step['files'] = pick(file_refs('cdhb'), 1, 2)
@@ -468,6 +471,9 @@ def render(model, src):
     if (model.get('decor') or {}).get('yacc'):
         for f in ('gram1.y', 'gram2.y', 'ymain.c'):
             sandbox.write_file(os.path.join(src, f), '/* {} */\n'.format(f))
+    for i in range((model.get('decor') or {}).get('wide') or 0):
+        sandbox.write_file(os.path.join(src, 'wide', 'w{}.c'.format(i)),
+                           '/* w{} */\n'.format(i))
     sandbox.write_file(os.path.join(src, 'build.bfg'), script(model))
 
 
@@ -546,6 +552,12 @@ def script(model):
                     else _ref_expr(model, r_) for r_ in st_['files'])
                 cmdkw = "cmds=['true', {!r} + [{}]]".format(cmd, refs)
                 filekw = ''
+            elif st_.get('state_lines'):
+                sd = 'vf_state_{}'.format(st_['id'])
+                cmdkw = 'cmds={!r}'.format(
+                    [['mkdir', '-p', sd], 'cd ' + sd,
+                     cmd[:2] + ['--vf-out=../' + o for o in st_['outs']]])
+                filekw = ', files=' + files
             elif st_.get('two_lines'):
                 # a step of two command lines (both get the environment)
                 cmdkw = 'cmds={!r}'.format(
@@ -580,6 +592,11 @@ def script(model):
         y2 = "gy2 = generated_source(file='gram2.y')"
         L += [y1, y2] if decor['yacc'] == 'one-first' else [y2, y1]
         L.append("yprog = executable('yprog', ['ymain.c', gy1, gy2[0]])")
+    if decor.get('wide'):
+        # steps with long input lists: an archive and a program of many units
+        ws = ['wide/w{}.c'.format(i) for i in range(decor['wide'])]
+        L.append("wlib = static_library('wide/wl', {!r})".format(ws[1:]))
+        L.append("wprog = executable('wide/wprog', {!r})".format(ws))
     if model.get('clash'):
         st_ = step_by_id(model)[model['clash'][0]]
         if model['clash'][1] == 'alias':
